@@ -224,17 +224,21 @@ func (v *visitor) visitForExpression(c fql.IForExpressionContext, scope *scope) 
 	var ds collections.Iterable
 
 	ctx := c.(*fql.ForExpressionContext)
-	expVars := ctx.AllIdentifier()
-
-	if len(expVars) > 0 {
-		valVarName = expVars[0].GetText()
-	}
-
-	if len(expVars) > 1 {
-		keyVarName = expVars[1].GetText()
-	}
-
 	isWhileLoop := ctx.In() == nil
+
+	// read the loop variables from their labelled tokens, so that the ignore
+	// variable "_" (not an Identifier token) is not skipped
+	if !isWhileLoop {
+		if v := ctx.GetValueVariable(); v != nil {
+			valVarName = v.GetText()
+		}
+
+		if k := ctx.GetCounterVariable(); k != nil {
+			keyVarName = k.GetText()
+		}
+	} else if v := ctx.GetCounterVariable(); v != nil {
+		valVarName = v.GetText()
+	}
 
 	if !isWhileLoop {
 		srcCtx := ctx.ForExpressionSource().(*fql.ForExpressionSourceContext)
